@@ -213,7 +213,11 @@ def check_line_graph(case, ctx):
     nodes, edges = P.content(hc)
     h = P.build_hypergraph(hc)
     distance, weighted = case["distance"], case["weighted"]
-    s_exact = Fraction(*case["s"])
+    s_exact = P.threshold_exact(distance, case["s"])
+    s_base = Fraction(case["s"][0], case["s"][1])
+    nudged = len(case["s"]) > 2 and case["s"][2]
+    if nudged:
+        ctx.label("threshold-one-ulp-%s-a-rational" % ("above" if nudged > 0 else "below"))
     s_arg = P.threshold_arg(distance, case["s"])
     if case["via"] == "function":
         g, table = line_graph(h, distance, s_arg, weighted)
@@ -242,7 +246,7 @@ def check_line_graph(case, ctx):
         sim = P.exact_sim(distance, a, b)
         exp = sim >= s_exact
         n_exp += exp
-        if sim == s_exact:
+        if sim == s_exact or (nudged and sim == s_base):
             exact_hit = True
         if 0 < sim < s_exact:
             below_hit = True
@@ -294,7 +298,11 @@ def check_directed_line_graph(case, ctx):
     nodes, edges = P.directed_content(dc)
     h = P.build_directed(dc)
     distance, weighted = case["distance"], case["weighted"]
-    s_exact = Fraction(*case["s"])
+    s_exact = P.threshold_exact(distance, case["s"])
+    s_base = Fraction(case["s"][0], case["s"][1])
+    nudged = len(case["s"]) > 2 and case["s"][2]
+    if nudged:
+        ctx.label("threshold-one-ulp-%s-a-rational" % ("above" if nudged > 0 else "below"))
     s_arg = P.threshold_arg(distance, case["s"])
     if case["via"] == "function":
         g, table = directed_line_graph(h, distance, s_arg, weighted)
@@ -325,7 +333,7 @@ def check_directed_line_graph(case, ctx):
             back = P.exact_sim(distance, of[v][1], of[u][0])
             exp = sim >= s_exact
             n_exp += exp
-            if sim == s_exact:
+            if sim == s_exact or (nudged and sim == s_base):
                 exact_hit = True
             if 0 < sim < s_exact:
                 below_hit = True
